@@ -1110,7 +1110,13 @@ def _build_return_sig(
     arg: List[Tuple[HK, PyHash]]
     if any(sig is None for sig in arg_ctx.named_args.values()):
         assert arg_ctx.inner_call_key is not None, f"{arg_ctx} {body_sig}"
-        arg = [(HK("arg_context"), arg_ctx.inner_call_key)]
+        # (the values that are known are still part of the key: a default value may come from an expression
+        # that is evaluated outside of the function, and it is not in the context of the call)
+        arg = [(HK("arg_context"), arg_ctx.inner_call_key)] + [
+            (HK(f"arg_{name}"), sig)
+            for (name, sig) in arg_ctx.named_args.items()
+            if sig is not None
+        ]
     else:
         arg = [
             (HK(f"arg_{name}"), cast(PyHash, sig))
